@@ -55,3 +55,72 @@ Example C09_nonvacuous_wrap :
   | Fault _ => False
   end.
 Proof. vm_compute. repeat split; reflexivity. Qed.
+
+(* ---------------------------------------------------------------- with time: the retransmission timer
+   (model/Timed.v; where the code arms, re-arms and stops its timers, what an expiry posts and how the loop dispatches
+   it is read from transaction.go / pfcp.go on every run: gen/TimerGen.v, condensed into Timed.source_tparams).
+   T = configured time-out, N = configured retries, t0 = when the request was sent, ds = how long after each expiry the
+   loop got round to handling it. *)
+From GoUpf Require TimerGen Timed TimedProofs.
+
+(* the source has the shape the timed model assumes: send arms the timer; the retry branch re-arms it on every path;
+   an expiry posts (TX, tx.id) after cfg.RetransTimeout and is dispatched to txTrans / handleTimeout; a response stops it *)
+Theorem C09_timer_sites : Timed.source_tparams = Timed.tp_ok.
+Proof. exact TimedProofs.source_tparams_ok. Qed.
+Print Assumptions C09_timer_sites.
+
+(* each retransmission / the final abandonment happens no earlier than its expiry; consecutive ones are at least T
+   apart (the i-th action is not before t0 + i*T), and not later than delta after its expiry if the loop is never
+   busy for longer than delta *)
+Theorem C09_retransmission_schedule : forall (T : Z) (N : nat) (t0 : Z) (ds : list Z),
+  (0 <= T)%Z -> Forall (fun d => (0 <= d)%Z) ds ->
+  Timed.spaced T (t0 + T)%Z (TimedProofs.times (snd (Timed.tx_run Timed.source_tparams T N (Timed.tx_start Timed.source_tparams T t0) ds))) /\
+  forall delta, Forall (fun d => (d <= delta)%Z) ds ->
+  Timed.punctual T delta (t0 + T)%Z (TimedProofs.times (snd (Timed.tx_run Timed.source_tparams T N (Timed.tx_start Timed.source_tparams T t0) ds))).
+Proof. exact TimedProofs.src_tx_schedule. Qed.
+Print Assumptions C09_retransmission_schedule.
+
+(* never more than N retransmissions; once N+1 expiries have been handled: exactly N retransmissions, then the request
+   is abandoned and its bookkeeping released (stale expiries afterwards do nothing) *)
+Theorem C09_retry_budget_and_release : forall (T : Z) (N : nat) (t0 : Z) (ds : list Z),
+  (List.length (filter Timed.is_retrans (snd (Timed.tx_run Timed.source_tparams T N (Timed.tx_start Timed.source_tparams T t0) ds))) <= N)%nat /\
+  ((N < List.length ds)%nat ->
+   fst (Timed.tx_run Timed.source_tparams T N (Timed.tx_start Timed.source_tparams T t0) ds) = Timed.TxGone /\
+   map Timed.is_retrans (snd (Timed.tx_run Timed.source_tparams T N (Timed.tx_start Timed.source_tparams T t0) ds)) = repeat true N ++ [false]).
+Proof. exact TimedProofs.src_tx_budget_release. Qed.
+Print Assumptions C09_retry_budget_and_release.
+
+(* a response retires the request: expiries handled afterwards emit nothing *)
+Theorem C09_response_stops_retransmission : forall p T N s ds, Timed.tx_run p T N (Timed.tx_resp s) ds = (Timed.TxGone, []).
+Proof. exact TimedProofs.tx_after_response. Qed.
+Print Assumptions C09_response_stops_retransmission.
+
+(* the variant in which the re-arm can be skipped (e.g. a failed write returning first): never retired *)
+Theorem C09_skipped_rearm_refuted : forall T N ds due, (1 <= N)%nat -> ds <> [] ->
+  fst (Timed.tx_run (Timed.mkTP true true true false true true true true true true) T N (Timed.TxWait 0 due) ds) = Timed.TxStalled 1.
+Proof. exact TimedProofs.tx_no_rearm_stalls. Qed.
+Print Assumptions C09_skipped_rearm_refuted.
+
+Example C09_timed_nonvacuous :
+  Timed.tx_run Timed.source_tparams 200 2 (Timed.tx_start Timed.source_tparams 200 1000) [3; 0; 7; 1]%Z
+  = (Timed.TxGone, [Timed.Retrans 1203; Timed.Retrans 1403; Timed.Abandon 1610]).
+Proof. exact TimedProofs.timed_example. Qed.
+
+(* "distinct from every other outstanding one": the k-th request sent since the counter stood at x0 carries
+   (x0 + k) mod 2^24 (C09_sequence_24bit: send_req stores counter+1 mod 2^24); two of them differ iff fewer than 2^24
+   requests lie between them - the bound is exact.  A request can therefore meet an outstanding one with its own
+   number only if that one stayed outstanding over 2^24 later requests; its life is bounded by (N+1)*T
+   (C09_retry_budget_and_release). *)
+From GoUpf Require SeqWindow.
+Theorem C09_sequence_of_kth_request : forall x0 k, SeqWindow.seq_after x0 k = (x0 + N.of_nat k) mod 16777216.
+Proof. exact SeqWindow.seq_after_closed. Qed.
+Print Assumptions C09_sequence_of_kth_request.
+
+Theorem C09_distinct_within_window : forall x0 (a b : nat),
+  (a < b)%nat -> N.of_nat b - N.of_nat a < 16777216 -> SeqWindow.seq_after x0 a <> SeqWindow.seq_after x0 b.
+Proof. exact SeqWindow.seq_distinct_within_window. Qed.
+Print Assumptions C09_distinct_within_window.
+
+Theorem C09_window_bound_exact : forall x0 a, SeqWindow.seq_after x0 (a + N.to_nat 16777216) = SeqWindow.seq_after x0 a.
+Proof. exact SeqWindow.seq_repeat_at_window. Qed.
+Print Assumptions C09_window_bound_exact.
